@@ -886,10 +886,83 @@ def run(ctx, res):
     setup_defaults(res)
     shared_half(res, corpus)
     nested_half(res)
+    dotdata_half(res)
 
     res.failures.sort(key=lambda f: (case_size(f["case"]) if "steps" in f["case"]
                                      else (1, nodes(f["case"]["value"]))))
     del res.failures[2000:]
+
+
+# ---------------------------------------------------------------------------- data that look like an event (".data")
+def dotdata_values():
+    """ordinary values that are NOT events but have an attribute called `data` (a validator unwraps events, nothing
+    else): name -> value"""
+    import collections
+    import types
+
+    class Record:                          # an application record with a field called data
+        def __init__(self, data):
+            self.data = data
+    return {"UserDict": collections.UserDict({"a": 1}), "UserList": collections.UserList([1, 2]),
+            "UserString": collections.UserString("abc"), "Namespace(data=3)": types.SimpleNamespace(data=3),
+            "Record(data={})": Record({}), "Record(data=None)": Record(None), "memoryview-free bytes holder": Record(b"x")}
+
+
+def dotdata_case(spec, name, wrapping):
+    """-> failure text | None.  Verdict as the validator class documents it for the VALUE ITSELF (json.dumps of it /
+    its type / accept all), the same bare and wrapped, and if accepted: one event carrying it, serialisable for a JSON
+    validator"""
+    from bobocep.cep.engine.receiver.receiver import BoboReceiver
+    from bobocep.cep.engine.receiver.pubsub import BoboReceiverSubscriber
+    from bobocep.cep.gen.event_id import BoboGenEventIDUnique
+    from bobocep.cep.gen.timestamp import BoboGenTimestampEpoch
+    import bobocep.cep.engine.receiver.validator as V
+    v = dotdata_values()[name]
+    try:
+        val = make_validator(spec)
+    except V.BoboValidatorError:
+        return None
+    want = reference_verdict(spec, v, "F")          # none of these values is JSON, so a schema's own answer is moot
+    got = []
+
+    class Sub(BoboReceiverSubscriber):
+        def on_receiver_update(self, event):
+            got.append(event)
+    rc = BoboReceiver(validator=val, gen_event_id=BoboGenEventIDUnique("u"), gen_timestamp=BoboGenTimestampEpoch())
+    rc.subscribe(Sub())
+    datum = v if wrapping == "bare" else wrap(wrapping, v, "w1", 5)
+    try:
+        verdict = bool(val.is_valid(datum))
+    except V.BoboValidatorError:
+        return None                                   # the schema itself is invalid
+    rc.add_data(datum)
+    try:
+        rc.update()
+    except V.BoboValidatorError:
+        return None
+    if verdict != want:
+        return "verdict %s, documented %s" % (verdict, want)
+    if len(got) != (1 if want else 0):
+        return "verdict %s but %d events published" % (verdict, len(got))
+    if want and (got[0].data is not v):
+        return "the published event does not carry the datum itself"
+    if want and is_json_validator(spec) and not serialises(got[0]):
+        return "accepted by a JSON validator but the event cannot be serialised"
+    return None
+
+
+def dotdata_half(res):
+    n = 0
+    for spec in VALIDATORS:
+        for name in dotdata_values():
+            for wrapping in ("bare", "simple", "complex", "action"):
+                bad = dotdata_case(spec, name, wrapping)
+                n += 1
+                if bad:
+                    res.failures.append(dict(signature="value-with-a-data-attribute", what="%s on %s (%s): %s" % (spec, name, wrapping, bad),
+                                             case=dict(dotdata=True, validator=spec, value=["str", name], name=name, wrap=wrapping)))
+        res.note_case(("dotdata", repr(spec)), True)
+    res.extra["values_with_a_data_attribute"] = n
 
 
 # ---------------------------------------------------------------------------- deep, but not too deep for json
@@ -1059,6 +1132,10 @@ def replay(obj):
             print(json.dumps(obj, indent=1)[:3000])
             return 1
         case = ms[0]["case"]
+    if case.get("dotdata"):
+        bad = dotdata_case(case["validator"], case["name"], case["wrap"])
+        print("validator %s, value %s, %s:" % (case["validator"], case["name"], case["wrap"]), bad or "as documented")
+        return 1 if bad else 0
     if case.get("nested"):
         bad = nested_case(case["depth"], case["kind"], case["validator"], case["wrap"])
         print("JSON value nested %d levels (%s), validator %s, %s:" % (case["depth"], case["kind"], case["validator"], case["wrap"]),
